@@ -88,7 +88,7 @@ func c06LoopVar(c *Ctx, subs *types.Var) {
 		r.Undecided("broker SSA", 0, "package not built")
 		return
 	}
-	for _, fi := range c.P.LibFuncs("broker") {
+	for _, fi := range c.P.LibFuncsAll("broker") {
 		fn := c.P.SSAFunc(fi)
 		if fn == nil {
 			continue
